@@ -256,7 +256,8 @@ def independent(a, b):
 def same_up_to_reordering(actual, expected_src):
     """actual: list of ast statements; expected_src: list of source strings in the reference order.
     True iff the two are equal as multisets of normalised statements and every pair that is *dependent* keeps its reference order."""
-    exp = [ast.parse(t).body[0] for t in expected_src]
+    from .spelling import parse
+    exp = [parse(t).body[0] for t in expected_src]
     at = [norm(x) for x in actual]
     et = [norm(x) for x in exp]
     if sorted(at) != sorted(et):
@@ -276,3 +277,11 @@ def same_up_to_reordering(actual, expected_src):
             if not independent(exp[i], exp[j]) and amap[i] > amap[j]:
                 return False
     return True
+
+
+def cn(src):
+    """normalised text of source `src` (statement or expression) in the canonical spelling of sa/core/spelling.py"""
+    from .spelling import parse
+    t = parse(src)
+    b = t.body[0]
+    return norm(b.value) if isinstance(b, ast.Expr) else norm(b)
